@@ -429,6 +429,7 @@ fn main() {
                 let r = match a[1] {
                     "i8" => sv.add_value(&7i8, &typ), "i16" => sv.add_value(&7i16, &typ), "i32" => sv.add_value(&7i32, &typ), "i64" => sv.add_value(&7i64, &typ),
                     "f32" => sv.add_value(&1.5f32, &typ), "f64" => sv.add_value(&1.5f64, &typ), "bool" => sv.add_value(&true, &typ),
+                    "str" => sv.add_value(&"ab", &typ), "String" => sv.add_value(&"ab".to_string(), &typ),
                     "Counter" => sv.add_value(&Counter(7), &typ), "CqlDate" => sv.add_value(&CqlDate(7), &typ), "CqlTime" => sv.add_value(&CqlTime(7), &typ),
                     "CqlTimestamp" => sv.add_value(&CqlTimestamp(7), &typ), "Uuid" => sv.add_value(&uuid::Uuid::from_bytes([7; 16]), &typ),
                     "CqlTimeuuid" => sv.add_value(&CqlTimeuuid::from_bytes([7; 16]), &typ),
